@@ -51,6 +51,12 @@ def call_bound(ex, recv, name, args, kwargs, e):
         raise Unsupported("cursor method %s" % name)
     if isinstance(recv, VModule):
         return call_module(ex, recv.name, name, args, kwargs, e)
+    if isinstance(recv, VConst) and isinstance(recv.py, str):
+        if all(isinstance(a, VConst) for a in args) and not kwargs and name in ("format", "upper", "lower", "strip"):
+            return VConst(getattr(recv.py, name)(*[a.py for a in args]))
+        if name == "format":
+            return VZ(fresh("formatted", Str), "str")
+        raise Unsupported("str.%s at %d" % (name, e.lineno))
     if isinstance(recv, VUnknownColl) and name in ("add", "append", "discard", "update", "extend", "clear"):
         return VConst(None)
     if isinstance(recv, VSet) and name == "add":
@@ -103,6 +109,21 @@ def call_bound(ex, recv, name, args, kwargs, e):
             ex.st.heap["Mailbox._listeners"] = Store(ls, recv.obj, Store(ls[recv.obj], h.t, False))
             return VConst(None)
         raise Unsupported("listeners method %s" % name)
+    if isinstance(recv, VMap) and name == "get":
+        key = args[0]
+        dflt = args[1] if len(args) > 1 else VConst(None)
+        if isinstance(key, VConst):
+            return recv.d.get(key.py, dflt)
+        k = kind_of(key)
+        vals = list(recv.d.values()) + [dflt]
+        if k in ("int", "str") and all(isinstance(v, VConst) and isinstance(v.py, str) for v in vals) \
+                and all(isinstance(kk, int if k == "int" else str) for kk in recv.d):
+            kt = ex.scalar(key, k, e)
+            t = S(dflt.py)
+            for kk, v in recv.d.items():
+                t = If(kt == (IntVal(kk) if k == "int" else S(kk)), S(v.py), t)
+            return VZ(t, "str")
+        raise Unsupported("dict literal .get with a symbolic key at %d" % e.lineno)
     raise Unsupported("method %s on %r at %d" % (name, recv, e.lineno))
 
 
@@ -169,6 +190,9 @@ def call_func(ex, name, args, kwargs, e):
         if isinstance(v, VListeners):
             from .symex import card
             return VZ(card(ex.st.heap["Mailbox._listeners"][v.obj]), "int")
+        if isinstance(v, VBag):
+            n = bag_count(ex, v)
+            return VZ(n, "int")
         raise Unsupported("len of %r at %d" % (v, e.lineno))
     if name == "bool":
         return VZ(ex.truthy(args[0]), "bool")
@@ -197,8 +221,10 @@ def call_func(ex, name, args, kwargs, e):
             if v.mem is None:
                 return VList(IntVal(0), lambda i: VConst(None))
             return VBag(v.kind, lambda y: v.mem[y], EX([sort_of(v.kind)], lambda y: v.mem[y]))
-        if isinstance(v, (VList, VBag)):
+        if isinstance(v, (VList, VBag, VRowList)):
             return v
+        if isinstance(v, VCursor) and v.kind == "select":
+            return fetchall(ex, v, e)         # list(cursor) drains it
         raise Unsupported("list() of %r" % (v,))
     if name == "dict":
         if not args and not kwargs:
@@ -218,12 +244,48 @@ def call_func(ex, name, args, kwargs, e):
         raise Unsupported("any of %r" % (v,))
     if name == "sorted":
         return do_sorted(ex, args[0], e)
+    if name in ("min", "max"):
+        if len(args) == 1 and isinstance(args[0], (VList, VRowList)) and not kwargs:
+            v = args[0]
+            ex.require(v.n > 0, "ValueError", e)
+            k = kind_of(v.at(fresh("probe", INT)))
+            if k not in ("int", "real"):
+                raise Unsupported("%s of non-numbers at %d" % (name, e.lineno))
+            m = fresh(name, sort_of(k))
+            w = fresh(name + ".at", INT)
+            ex.assume(And(0 <= w, w < v.n, m == to_term(v.at(w), k)))
+            ex.assume(FA([INT], lambda j: Implies(And(0 <= j, j < v.n),
+                                                  (m <= to_term(v.at(j), k)) if name == "min" else (m >= to_term(v.at(j), k)))))
+            # ground instances for the first two elements (what the code base looks at)
+            for j in (0, 1):
+                ex.assume(Implies(v.n > j, (m <= to_term(v.at(IntVal(j)), k)) if name == "min" else (m >= to_term(v.at(IntVal(j)), k))))
+            return VZ(m, k)
+        if len(args) >= 2 and not kwargs and all(kind_of(a) in ("int", "real") for a in args):
+            k = "int" if all(kind_of(a) == "int" for a in args) else "real"
+            ts = [ex.scalar(a, k, e) for a in args]
+            m = ts[0]
+            for t in ts[1:]:
+                m = If(t < m, t, m) if name == "min" else If(t > m, t, m)
+            return VZ(m, k)
+        raise Unsupported("%s(...) at %d" % (name, e.lineno))
+    if name == "tuple":
+        if args and isinstance(args[0], VTuple):
+            return args[0]
+        raise Unsupported("tuple() at %d" % e.lineno)
     if name == "sum":
         return do_sum(ex, args[0], e)
     if name == "str":
         v = args[0]
         if isinstance(v, VOpaque):
             return VOpaque(Function("py_str", Json, Json)(v.t))
+        if isinstance(v, VZ) and v.kind == "str":
+            return v
+        if isinstance(v, VConst):
+            return VConst(str(v.py))
+        if isinstance(v, VZ) and v.kind == "int":
+            return VZ(dec(v.t), "str")
+        if isinstance(v, (VZ, VOpt)):
+            return VZ(fresh("str_of", Str), "str")      # repr of a float / optional: some string
         raise Unsupported("str() of %r" % (v,))
     if name == "int":
         v = args[0] if args else VConst(0)
@@ -260,7 +322,21 @@ sumfold = Function("sumfold", ArraySort(INT, INT), INT, INT)  # sum of f[0..n)
 dictsum = Function("dictsum", ArraySort(INT, INT), ArraySort(Str, INT), INT)   # sum of G[d[k]] over the keys of d (A3)
 
 
+def bag_count(ex, v):
+    """number of elements of a filtered comprehension: only 'zero iff nothing passes the filter' and the bounds are known"""
+    n = fresh("count", INT)
+    ex.assume(n >= 0)
+    ex.assume((n > 0) == v.nonempty)
+    if getattr(v, "bound", None) is not None:
+        ex.assume(n <= v.bound)
+    return n
+
+
 def do_sum(ex, v, e):
+    if isinstance(v, VBag) and getattr(v, "const_elt", None) is not None and isinstance(v.const_elt, int) \
+            and not isinstance(v.const_elt, bool):
+        n = bag_count(ex, v)
+        return VZ(n * v.const_elt, "int")
     if isinstance(v, VList) and hasattr(v, "dict_src"):
         m, G = v.dict_src
         return VZ(dictsum(G, m), "int")
